@@ -108,6 +108,9 @@ func checkC09(w *World, r *Report) {
 	r.floor("C09.version", "stores to Atom.Val of shared atoms", nv, 1)
 
 	checkRMW(w, r, e)
+	r.rule("C09.pure-update", "the optimistic swap! applies the update function to a value other threads can still see and may discard the result: no library function writes into the storage of a value it was given (container writes go to storage allocated in the same activation; shared with C02.write)")
+	npu := ruleContainerWrites(w, r, e, "C09.pure-update", func(fn *ssa.Function) bool { return runtimePkg(fnPkgPath(fn)) }, false)
+	r.floor("C09.pure-update", "container write sites in the library", npu, 40)
 	r.rule("C09.lisp", "library code built on atoms in the embedded headers (gensym, memoize, load-file-once, protocols) updates them only through swap!, never by reset! of a value computed from a separate read, and does not re-read an atom after discarding swap!'s result")
 	atomLint(w, r, "C09.lisp")
 	r.Assumptions = append(r.Assumptions, "linearizability and real-time order are not decided; only the lock discipline every linearizable implementation of this design needs")
@@ -236,6 +239,68 @@ func checkRMW(w *World, r *Report, e *Engine) {
 		}
 	}
 	r.check(polled, "C09.rmw", swap, "retry loop polls the context", swap.Pos(), "ctx.Err()/ctx.Done() consulted in the loop", "retry loop never consults the context (C07)")
+	// a retried attempt is independent of the failed ones: nothing is carried around the loop, nothing allocated
+	// before the loop is written inside it, and the argument list handed to the update function is built per attempt
+	var carried []string
+	for _, in := range loop.header.Instrs {
+		phi, ok := in.(*ssa.Phi)
+		if !ok {
+			break
+		}
+		carried = append(carried, nz(phi.Comment, phi.Name()))
+	}
+	r.check(len(carried) == 0, "C09.rmw", swap, "state carried from one attempt to the next", loop.header.Instrs[0].Pos(), "none", "values carried around the retry loop ("+strings.Join(carried, ", ")+"): a retried attempt does not compute f(current value, same arguments)")
+	for b := range blocks {
+		for _, in := range b.Instrs {
+			var root ssa.Value
+			what := ""
+			switch x := in.(type) {
+			case *ssa.Store:
+				switch ad := x.Addr.(type) {
+				case *ssa.IndexAddr:
+					root, what = storageRoot(ad.X), "element store"
+					if root == nil {
+						root = ad.X
+					}
+				case *ssa.Alloc:
+					root, what = ad, "assignment to a variable"
+				case *ssa.FreeVar:
+					root, what = ad, "assignment to a captured variable"
+				}
+			case *ssa.MapUpdate:
+				root, what = x.Map, "map update"
+			}
+			if root == nil {
+				continue
+			}
+			ri, isInstr := root.(ssa.Instruction)
+			outside := !isInstr || !blocks[ri.Block()]
+			if _, isParam := root.(*ssa.Parameter); isParam {
+				outside = true
+			}
+			if al, ok := root.(*ssa.Alloc); ok && outside && (al.Comment == "varargs" || al.Comment == "complit" || al.Comment == "slicelit") {
+				outside = false // temporaries are (re)allocated where they are used
+			}
+			if outside {
+				r.bad("C09.rmw", swap, what+" inside the retry loop", in.Pos(), "storage that outlives an attempt ("+describeVal(e, root, 0)+") is written inside the retry loop: a retried attempt sees what the failed one left behind")
+			}
+		}
+	}
+	if len(apply.Call.Args) >= 3 {
+		root := storageRoot(apply.Call.Args[2])
+		if ap, ok := apply.Call.Args[2].(*ssa.Call); ok {
+			if bi, isB := ap.Call.Value.(*ssa.Builtin); isB && bi.Name() == "append" {
+				root = storageRoot(ap.Call.Args[0])
+				if root == nil {
+					if c, isC := ap.Call.Args[0].(*ssa.Const); isC && c.Value == nil {
+						root = ap // append(nil, …) allocates
+					}
+				}
+			}
+		}
+		ri, isInstr := root.(ssa.Instruction)
+		r.check(root != nil && isInstr && blocks[ri.Block()], "C09.rmw", swap, "argument list of the update function", apply.Pos(), "built anew in every attempt", "the argument list handed to the update function is not allocated inside the attempt: it carries contents from one attempt to the next (and a function keeping its rest arguments sees them change)")
+	}
 }
 
 func isContext(t types.Type) bool {
@@ -601,6 +666,8 @@ func checkC10(w *World, r *Report) {
 		r.check(sent, "C10.deliver", body, "exit of the body goroutine", ret.Pos(), "outcome sent on every path to this exit", "the body can finish without delivering its outcome: every deref then blocks until its own context ends")
 	}
 	r.floor("C10.deliver", "exits of the body goroutine", nd, 2)
+	singleOutcomeRule(w, r, e, "C10.single-outcome")
+	doneFlagRule(w, r, e, "C10.done-flag")
 	// redeposit
 	nrecv := 0
 	for _, b := range deref.Blocks {
@@ -824,6 +891,29 @@ func checkC11(w *World, r *Report) {
 	} else {
 		r.undecided("C11.local", nil, "evaluator model", token.NoPos, m.why)
 	}
+	// own lock
+	r.rule("C11.own-lock", "every scope has a mutex of its own: the mu field of an Env is only ever assigned a mutex allocated in the same activation (the ascent to the outer scope locks the outer scope while the inner one is read-locked; with one shared mutex that is a recursive read lock, which dead-locks as soon as a writer queues between the two)")
+	nl := 0
+	for _, fn := range w.pkgFuncs("env") {
+		for _, b := range fn.Blocks {
+			for _, in := range b.Instrs {
+				st, ok := in.(*ssa.Store)
+				if !ok {
+					continue
+				}
+				fa, ok := st.Addr.(*ssa.FieldAddr)
+				if !ok || fieldName(fa.X.Type(), fa.Field) != "mu" {
+					continue
+				}
+				nl++
+				al, isAl := st.Val.(*ssa.Alloc)
+				r.check(isAl && al.Parent() == fn, "C11.own-lock", fn, "mutex given to a scope", st.Pos(), "a mutex allocated here", "the scope's mutex is not its own ("+describeVal(e, st.Val, 0)+"): scopes sharing a mutex turn the lookup's ascent into a recursive read lock")
+			}
+		}
+	}
+	r.floor("C11.own-lock", "stores to Env.mu", nl, 1)
+	r.rule("C11.shared-state", "the atoms created while the embedded headers are loaded (outside every fn body) are shared by all evaluations on the environment; the confirmed inventory is a monotone counter (gensym) and a monotone set (load-file-once): any other load-time atom is state through which evaluations can see each other's data")
+	loadTimeAtomRule(w, r, "C11.shared-state")
 	r.rule("C11.lisp", "the library's per-evaluation unique values (gensym) come from the value swap! installed, not from a second read of the shared counter (shared with C09.lisp)")
 	atomLint(w, r, "C11.lisp")
 	r.Notes = append(r.Notes, "shared values are immutable (C02), so sharing globals between evaluations needs no lock beyond the scope lock")
@@ -934,4 +1024,223 @@ func resolveRet(v ssa.Value) ssa.Value {
 		return last
 	}
 	return v
+}
+
+
+// futureBody: the function run by the one goroutine NewFuture starts (nil when it cannot be resolved).
+func futureBody(w *World) *ssa.Function {
+	nf := w.Fn("lib/concurrent", "NewFuture")
+	if nf == nil {
+		return nil
+	}
+	var body *ssa.Function
+	for _, b := range nf.Blocks {
+		for _, in := range b.Instrs {
+			if g, ok := in.(*ssa.Go); ok {
+				if mc, ok := g.Call.Value.(*ssa.MakeClosure); ok {
+					body = mc.Fn.(*ssa.Function)
+				} else if sc := g.Call.StaticCallee(); sc != nil {
+					body = sc
+				}
+			}
+		}
+	}
+	return body
+}
+
+// outcomeChanField: v is the channel stored in a field of a Future.
+func outcomeChanField(v ssa.Value) (string, bool) {
+	ld, ok := v.(*ssa.UnOp)
+	if !ok || ld.Op != token.MUL {
+		return "", false
+	}
+	fa, ok := ld.X.(*ssa.FieldAddr)
+	if !ok {
+		return "", false
+	}
+	t := fa.X.Type()
+	if p, ok := t.Underlying().(*types.Pointer); ok {
+		t = p.Elem()
+	}
+	n, ok := t.(*types.Named)
+	if !ok || n.Obj().Name() != "Future" {
+		return "", false
+	}
+	if _, isChan := ld.Type().Underlying().(*types.Chan); !isChan {
+		return "", false
+	}
+	return fieldName(fa.X.Type(), fa.Field), true
+}
+
+// singleOutcomeRule: a future has one outcome.  The only sends on a future's outcome channels are the
+// delivery in the body goroutine (at most one per run) and the re-deposit of a value that was just
+// received from the same channel.  Any other sender puts a second value into the one-slot channels: a
+// deref then returns either outcome, and a re-deposit can block forever (ignoring its context).
+func singleOutcomeRule(w *World, r *Report, e *Engine, rule string) {
+	r.rule(rule, "the only sends on a future's outcome channels are the single delivery of the body goroutine and the re-deposit, by a reader, of the value it has just received from that same channel (one outcome per future; the unguarded re-deposit cannot block)")
+	body := futureBody(w)
+	if body == nil {
+		r.undecided(rule, nil, "goroutine body of NewFuture", token.NoPos, "cannot resolve the goroutine's function")
+		return
+	}
+	inBody := map[*ssa.Function]bool{}
+	for _, f := range w.withPkgHelpers(body) {
+		inBody[f] = true
+	}
+	inBody[body] = true
+	n := 0
+	var bodySends []ssa.Instruction
+	for _, fn := range w.Funcs {
+		if isTestFunc(w, fn) || !strings.HasPrefix(fnPkgPath(fn), modPath) {
+			continue
+		}
+		for _, b := range fn.Blocks {
+			for _, in := range b.Instrs {
+				type snd struct {
+					ch, val ssa.Value
+					pos     token.Pos
+				}
+				var sends []snd
+				switch x := in.(type) {
+				case *ssa.Send:
+					sends = append(sends, snd{x.Chan, x.X, x.Pos()})
+				case *ssa.Select:
+					for _, st := range x.States {
+						if st.Dir == types.SendOnly {
+							sends = append(sends, snd{st.Chan, st.Send, st.Pos})
+						}
+					}
+				}
+				for _, s := range sends {
+					field, ok := outcomeChanField(s.ch)
+					if !ok {
+						continue
+					}
+					n++
+					construct := "send on " + field
+					if inBody[fn] {
+						bodySends = append(bodySends, in)
+						r.ok(rule, fn, construct, s.pos, "delivery by the body goroutine")
+						continue
+					}
+					// re-deposit: the value sent was received from the same channel field
+					redeposit := false
+					switch v := s.val.(type) {
+					case *ssa.Extract:
+						if sel, ok := v.Tuple.(*ssa.Select); ok {
+							k := 0
+							for _, st := range sel.States {
+								if st.Dir != types.RecvOnly {
+									continue
+								}
+								if f2, ok := outcomeChanField(st.Chan); ok && f2 == field && v.Index == 2+k {
+									redeposit = true
+								}
+								k++
+							}
+						}
+					case *ssa.UnOp:
+						if v.Op == token.ARROW {
+							if f2, ok := outcomeChanField(v.X); ok && f2 == field {
+								redeposit = true
+							}
+						}
+					}
+					r.check(redeposit, rule, fn, construct, s.pos, "re-deposit of the value just received from this channel", "a second sender on a future's outcome channel: the future gets two outcomes (derefs disagree, and the unguarded re-deposit of a reader can block forever)")
+				}
+			}
+		}
+	}
+	// at most one delivery per run of the body
+	for i, a := range bodySends {
+		for j, b := range bodySends {
+			if i != j && a.Parent() == b.Parent() && blockReaches(a.Block(), b.Block(), a.Block() == b.Block()) {
+				r.bad(rule, a.Parent(), "two deliveries on one path", b.Pos(), "the body goroutine can send twice in one run")
+			}
+		}
+	}
+	r.floor(rule, "sends on outcome channels", n, 4)
+}
+
+// blockReaches: there is a path of at least one edge from a to b (or a == b and same is set for distinct instructions).
+func blockReaches(a, b *ssa.BasicBlock, same bool) bool {
+	if same {
+		return true
+	}
+	seen := map[*ssa.BasicBlock]bool{}
+	work := append([]*ssa.BasicBlock{}, a.Succs...)
+	for len(work) > 0 {
+		x := work[len(work)-1]
+		work = work[:len(work)-1]
+		if seen[x] {
+			continue
+		}
+		seen[x] = true
+		if x == b {
+			return true
+		}
+		work = append(work, x.Succs...)
+	}
+	return false
+}
+
+
+// doneFlagRule: future-done? reports the Done flag and nothing else, and the flag is only ever set.
+func doneFlagRule(w *World, r *Report, e *Engine, rule string) {
+	r.rule(rule, "IsDone returns the receiver's Done field on every path (no other input, such as what the outcome channels momentarily hold), and Done is only ever assigned true: once true, future-done? stays true")
+	isDone := w.Fn("lib/concurrent", "(*Future).IsDone")
+	if isDone == nil {
+		r.undecided(rule, nil, "(*Future).IsDone", token.NoPos, "method no longer resolves")
+		return
+	}
+	n := 0
+	for _, f := range w.withPkgHelpers(isDone) {
+		_ = f
+	}
+	for _, b := range isDone.Blocks {
+		if len(b.Instrs) == 0 || b == isDone.Recover {
+			continue
+		}
+		ret, ok := b.Instrs[len(b.Instrs)-1].(*ssa.Return)
+		if !ok || len(ret.Results) != 1 {
+			continue
+		}
+		n++
+		v := resolveRet(ret.Results[0])
+		okFlag := false
+		if ld, ok := v.(*ssa.UnOp); ok && ld.Op == token.MUL {
+			if fa, ok := ld.X.(*ssa.FieldAddr); ok && fieldName(fa.X.Type(), fa.Field) == "Done" && fa.X == ssa.Value(isDone.Params[0]) {
+				okFlag = true
+			}
+		}
+		r.check(okFlag, rule, isDone, "value returned by IsDone", ret.Pos(), "the Done flag of the receiver", "future-done? is computed from something other than the Done flag ("+describeVal(e, v, 0)+"): it can be false after having been true or after a deref has returned")
+	}
+	for _, fn := range w.Funcs {
+		if isTestFunc(w, fn) || !strings.HasPrefix(fnPkgPath(fn), modPath) {
+			continue
+		}
+		for _, b := range fn.Blocks {
+			for _, in := range b.Instrs {
+				st, ok := in.(*ssa.Store)
+				if !ok {
+					continue
+				}
+				fa, ok := st.Addr.(*ssa.FieldAddr)
+				if !ok || fieldName(fa.X.Type(), fa.Field) != "Done" {
+					continue
+				}
+				t := fa.X.Type()
+				if p, ok := t.Underlying().(*types.Pointer); ok {
+					t = p.Elem()
+				}
+				if nt, ok := t.(*types.Named); !ok || nt.Obj().Name() != "Future" {
+					continue
+				}
+				n++
+				c, isC := st.Val.(*ssa.Const)
+				r.check(isC && c.Value != nil && c.Value.Kind() == constant.Bool && constant.BoolVal(c.Value), rule, fn, "store to Done", st.Pos(), "only ever set to true", "Done is assigned something other than true: future-done? can go back to false")
+			}
+		}
+	}
+	r.floor(rule, "returns of IsDone and stores to Done", n, 3)
 }
